@@ -245,6 +245,56 @@ Proof.
     destruct Hz as [Hz|[Hz|[Hz|Hz]]]; [right; left; apply ezero_closed_flip; assumption|left; apply ezero_closed_flip; assumption|tauto|tauto].
 Qed.
 
+(* ---- powers in Q *)
+Lemma Qpow_succ (x : Q) (n : N) : x ^ Z.of_N (N.succ n) == x * x ^ Z.of_N n.
+Proof.
+  rewrite N2Z.inj_succ. unfold Z.succ. rewrite Z.add_comm.
+  rewrite Qpower_plus' by lia. reflexivity.
+Qed.
+Lemma Qpow_nonneg (x : Q) (n : N) : 0 <= x -> 0 <= x ^ Z.of_N n.
+Proof. intros. apply Qpower_0_le. assumption. Qed.
+Lemma Qpow_pos (x : Q) (n : N) : 0 < x -> 0 < x ^ Z.of_N n.
+Proof. intros. apply Qpower_0_lt. assumption. Qed.
+Lemma Qpow_mono_strict (n : N) : forall a b, 0 <= a -> a < b -> (n <> 0)%N -> a ^ Z.of_N n < b ^ Z.of_N n.
+Proof.
+  induction n as [|n IH] using N.peano_ind; intros a b Ha Hab Hn; [congruence|].
+  rewrite !Qpow_succ. destruct (N.eq_dec n 0) as [->|Hn0].
+  - cbn. lra.
+  - specialize (IH a b Ha Hab Hn0). pose proof (Qpow_nonneg a n Ha). nra.
+Qed.
+Lemma Qpow_mono (n : N) a b : 0 <= a -> a <= b -> a ^ Z.of_N n <= b ^ Z.of_N n.
+Proof.
+  intros Ha Hab. destruct (N.eq_dec n 0) as [->|Hn]; [cbn; lra|].
+  destruct (Qlt_le_dec a b) as [H|H]; [apply Qlt_le_weak, Qpow_mono_strict; assumption|].
+  assert (E : a == b) by lra. rewrite E. lra.
+Qed.
+Lemma Qpow_neg (n : N) a : (- a) ^ Z.of_N n == if N.odd n then - (a ^ Z.of_N n) else a ^ Z.of_N n.
+Proof.
+  induction n as [|n IH] using N.peano_ind; [cbn; reflexivity|].
+  rewrite N.odd_succ, <- N.negb_odd.
+  destruct (N.odd n); cbn [negb] in *; rewrite (Qpow_succ (- a)), (Qpow_succ a), IH; ring.
+Qed.
+Lemma Qpow_odd_mono_strict (n : N) a b : N.odd n = true -> a < b -> a ^ Z.of_N n < b ^ Z.of_N n.
+Proof.
+  intros Ho Hab. assert (Hn : (n <> 0)%N) by (intros ->; discriminate).
+  pose proof (Qpow_neg n a) as Na. pose proof (Qpow_neg n b) as Nb. rewrite Ho in Na, Nb.
+  destruct (Qlt_le_dec a 0) as [Ha|Ha]; destruct (Qlt_le_dec b 0) as [Hb|Hb].
+  - assert (H : (- b) ^ Z.of_N n < (- a) ^ Z.of_N n) by (apply Qpow_mono_strict; [lra|lra|assumption]). lra.
+  - pose proof (Qpow_pos (- a) n ltac:(lra)). pose proof (Qpow_nonneg b n Hb). lra.
+  - lra.
+  - apply Qpow_mono_strict; assumption.
+Qed.
+Lemma Qpow_even_abs (n : N) a : N.odd n = false -> (- a) ^ Z.of_N n == a ^ Z.of_N n.
+Proof. intros Ho. rewrite Qpow_neg, Ho. reflexivity. Qed.
+Lemma Qpow_even_nonneg (n : N) a : N.odd n = false -> 0 <= a ^ Z.of_N n.
+Proof.
+  intros Ho. destruct (Qlt_le_dec a 0); [|apply Qpow_nonneg; assumption].
+  rewrite <- (Qpow_even_abs n a Ho). apply Qpow_nonneg. lra.
+Qed.
+Lemma Qpow_zero (n : N) : (n <> 0)%N -> 0 ^ Z.of_N n == 0.
+Proof. intros Hn. destruct n; [congruence|]. cbn. apply Qpower_positive_0. Qed.
+
+
 (* ================================================================== generic scalar intervals *)
 
 Definition qlt (a : Q) (ao : bool) (b : Q) (bo : bool) : bool :=
@@ -718,55 +768,6 @@ Proof.
   - apply gi_mul_gen_incl; assumption.
 Qed.
 
-(* ---- powers in Q *)
-Lemma Qpow_succ (x : Q) (n : N) : x ^ Z.of_N (N.succ n) == x * x ^ Z.of_N n.
-Proof.
-  rewrite N2Z.inj_succ. unfold Z.succ. rewrite Z.add_comm.
-  rewrite Qpower_plus' by lia. reflexivity.
-Qed.
-Lemma Qpow_nonneg (x : Q) (n : N) : 0 <= x -> 0 <= x ^ Z.of_N n.
-Proof. intros. apply Qpower_0_le. assumption. Qed.
-Lemma Qpow_pos (x : Q) (n : N) : 0 < x -> 0 < x ^ Z.of_N n.
-Proof. intros. apply Qpower_0_lt. assumption. Qed.
-Lemma Qpow_mono_strict (n : N) : forall a b, 0 <= a -> a < b -> (n <> 0)%N -> a ^ Z.of_N n < b ^ Z.of_N n.
-Proof.
-  induction n as [|n IH] using N.peano_ind; intros a b Ha Hab Hn; [congruence|].
-  rewrite !Qpow_succ. destruct (N.eq_dec n 0) as [->|Hn0].
-  - cbn. lra.
-  - specialize (IH a b Ha Hab Hn0). pose proof (Qpow_nonneg a n Ha). nra.
-Qed.
-Lemma Qpow_mono (n : N) a b : 0 <= a -> a <= b -> a ^ Z.of_N n <= b ^ Z.of_N n.
-Proof.
-  intros Ha Hab. destruct (N.eq_dec n 0) as [->|Hn]; [cbn; lra|].
-  destruct (Qlt_le_dec a b) as [H|H]; [apply Qlt_le_weak, Qpow_mono_strict; assumption|].
-  assert (E : a == b) by lra. rewrite E. lra.
-Qed.
-Lemma Qpow_neg (n : N) a : (- a) ^ Z.of_N n == if N.odd n then - (a ^ Z.of_N n) else a ^ Z.of_N n.
-Proof.
-  induction n as [|n IH] using N.peano_ind; [cbn; reflexivity|].
-  rewrite N.odd_succ, <- N.negb_odd.
-  destruct (N.odd n); cbn [negb] in *; rewrite (Qpow_succ (- a)), (Qpow_succ a), IH; ring.
-Qed.
-Lemma Qpow_odd_mono_strict (n : N) a b : N.odd n = true -> a < b -> a ^ Z.of_N n < b ^ Z.of_N n.
-Proof.
-  intros Ho Hab. assert (Hn : (n <> 0)%N) by (intros ->; discriminate).
-  pose proof (Qpow_neg n a) as Na. pose proof (Qpow_neg n b) as Nb. rewrite Ho in Na, Nb.
-  destruct (Qlt_le_dec a 0) as [Ha|Ha]; destruct (Qlt_le_dec b 0) as [Hb|Hb].
-  - assert (H : (- b) ^ Z.of_N n < (- a) ^ Z.of_N n) by (apply Qpow_mono_strict; [lra|lra|assumption]). lra.
-  - pose proof (Qpow_pos (- a) n ltac:(lra)). pose proof (Qpow_nonneg b n Hb). lra.
-  - lra.
-  - apply Qpow_mono_strict; assumption.
-Qed.
-Lemma Qpow_even_abs (n : N) a : N.odd n = false -> (- a) ^ Z.of_N n == a ^ Z.of_N n.
-Proof. intros Ho. rewrite Qpow_neg, Ho. reflexivity. Qed.
-Lemma Qpow_even_nonneg (n : N) a : N.odd n = false -> 0 <= a ^ Z.of_N n.
-Proof.
-  intros Ho. destruct (Qlt_le_dec a 0); [|apply Qpow_nonneg; assumption].
-  rewrite <- (Qpow_even_abs n a Ho). apply Qpow_nonneg. lra.
-Qed.
-Lemma Qpow_zero (n : N) : (n <> 0)%N -> 0 ^ Z.of_N n == 0.
-Proof. intros Hn. destruct n; [congruence|]. cbn. apply Qpower_positive_0. Qed.
-
 (* ---- sgn, contains_zero, contains *)
 Lemma gi_sgn_sound I x : iwf I -> Qin x I ->
   ((0 < gi_sgn O I)%Z -> 0 < x) /\ ((gi_sgn O I < 0)%Z -> x < 0) /\ (gi_sgn O I = 0%Z -> Qin 0 I).
@@ -1145,4 +1146,586 @@ Proof.
       destruct (ia_open I) eqn:Ao, (ib_open I) eqn:Bo; cbn; intros Hc; try discriminate;
       try (destruct L as [L|[L Lo]]; try discriminate); try (destruct U as [U|[U Uo]]; try discriminate);
       destruct (Qcompare_spec x 0); cbn; try reflexivity; try lra.
+Qed.
+
+(* ---- comparison of values *)
+Definition ecmp (e1 e2 : eQ) : comparison :=
+  match e1, e2 with
+  | NInf, NInf | PInf, PInf => Eq
+  | NInf, _ => Lt | _, NInf => Gt
+  | PInf, _ => Gt | _, PInf => Lt
+  | Fin a, Fin b => a ?= b
+  end.
+
+Lemma sgn_cmp_to_Z c : Z.sgn (cmp_to_Z c) = cmp_to_Z c. Proof. destruct c; reflexivity. Qed.
+Lemma cmp_to_Z_opp c : (- cmp_to_Z c)%Z = cmp_to_Z (CompOpp c). Proof. destruct c; reflexivity. Qed.
+
+Lemma QofR_integer z : QofR (q_from_integer z) == inject_Z z.
+Proof. unfold QofR, q_from_integer. cbn. field. Qed.
+Lemma q_wf_integer z : q_wf (q_from_integer z).
+Proof. split; cbn; [lia|]. apply Z.gcd_1_r. Qed.
+
+Lemma value_cmp_spec v1 v2 : vwf v1 -> vwf v2 ->
+  Z.sgn (value_cmp v1 v2) = cmp_to_Z (ecmp (vden v1) (vden v2)).
+Proof.
+  destruct v1 as [| |a|a|a|], v2 as [| |b|b|b|]; cbn [vwf]; try tauto; intros W1 W2; cbn [value_cmp vden ecmp value_rank value_cmp_ord];
+    try reflexivity.
+  - rewrite inject_Z_cmp. apply sgn_cmp_to_Z.
+  - (* int, dyadic *) cbn. rewrite Z.sgn_opp. unfold dy_cmp_integer. rewrite dy_cmp_spec.
+    destruct (dy_from_integer_spec a) as [_ E]. rewrite E. rewrite cmp_to_Z_opp, Qcompare_antisym. reflexivity.
+  - (* int, rat *) cbn. rewrite Z.sgn_opp. unfold q_cmp_integer. rewrite (q_cmp_spec _ _ W2 (q_wf_integer a)).
+    rewrite sgn_cmp_to_Z, QofR_integer, cmp_to_Z_opp, Qcompare_antisym. reflexivity.
+  - (* dyadic, int *) cbn. unfold dy_cmp_integer. rewrite dy_cmp_spec.
+    destruct (dy_from_integer_spec b) as [_ E]. rewrite E. reflexivity.
+  - apply dy_cmp_spec.
+  - (* dyadic, rat *) cbn. rewrite Z.sgn_opp. rewrite (q_cmp_dyadic_spec _ _ W2).
+    rewrite sgn_cmp_to_Z, cmp_to_Z_opp, Qcompare_antisym. reflexivity.
+  - (* rat, int *) cbn. unfold q_cmp_integer. rewrite (q_cmp_spec _ _ W1 (q_wf_integer b)).
+    rewrite sgn_cmp_to_Z, QofR_integer. reflexivity.
+  - (* rat, dyadic *) cbn. rewrite (q_cmp_dyadic_spec _ _ W1). apply sgn_cmp_to_Z.
+  - rewrite (q_cmp_spec _ _ W1 W2). apply sgn_cmp_to_Z.
+Qed.
+
+Definition eqlt (a : eQ) (ao : bool) (b : eQ) (bo : bool) : bool :=
+  match ecmp a b with Eq => negb ao && bo | Lt => true | Gt => false end.
+
+Lemma v_endpoint_lt_spec a ao b bo : vwf a -> vwf b -> v_endpoint_lt a ao b bo = eqlt (vden a) ao (vden b) bo.
+Proof.
+  intros Wa Wb. unfold v_endpoint_lt, eqlt. pose proof (value_cmp_spec a b Wa Wb) as H.
+  destruct (ecmp (vden a) (vden b)); cbn in H.
+  - assert (E : value_cmp a b = 0%Z) by lia. rewrite E. reflexivity.
+  - assert (E : (value_cmp a b < 0)%Z) by lia.
+    destruct (Z.eqb_spec (value_cmp a b) 0); [lia|]. destruct (Z.ltb_spec (value_cmp a b) 0); [reflexivity|lia].
+  - assert (E : (0 < value_cmp a b)%Z) by lia.
+    destruct (Z.eqb_spec (value_cmp a b) 0); [lia|]. destruct (Z.ltb_spec (value_cmp a b) 0); [lia|reflexivity].
+Qed.
+
+(* the order of end points, semantically *)
+Lemma eqlt_low_true t to r ro z : eqlt t to r ro = true -> lowok r ro z -> lowok t to z.
+Proof.
+  unfold eqlt. destruct t as [|a|], r as [|b|]; cbn; try discriminate; try tauto.
+  destruct (Qcompare_spec a b) as [E|E|E]; try discriminate.
+  - intros F. apply andb_prop in F. destruct F as [F1 F2]. apply negb_true_iff in F1. subst.
+    intros [H|[H Ho]]; [left; lra|discriminate].
+  - intros _ [H|[H Ho]]; left; lra.
+Qed.
+Lemma eqlt_low_false t to r ro z : eqlt t to r ro = false -> lowok t to z -> lowok r ro z.
+Proof.
+  unfold eqlt. destruct t as [|a|], r as [|b|]; cbn; try discriminate; try tauto.
+  destruct (Qcompare_spec a b) as [E|E|E]; try discriminate.
+  - intros F [H|[H Ho]]; [left; lra|]. subst. cbn in F. subst. right. split; [lra|reflexivity].
+  - intros _ [H|[H Ho]]; left; lra.
+Qed.
+Lemma eqlt_up_true r ro t to z : eqlt r (negb ro) t (negb to) = true -> upok r ro z -> upok t to z.
+Proof.
+  unfold eqlt. destruct t as [|a|], r as [|b|]; cbn; try discriminate; try tauto.
+  destruct (Qcompare_spec b a) as [E|E|E]; try discriminate.
+  - intros F. apply andb_prop in F. destruct F as [F1 F2]. apply negb_true_iff in F1, F2. apply negb_false_iff in F1. subst.
+    intros [H|[H Ho]]; [left; lra|discriminate].
+  - intros _ [H|[H Ho]]; left; lra.
+Qed.
+Lemma eqlt_up_false r ro t to z : eqlt r (negb ro) t (negb to) = false -> upok t to z -> upok r ro z.
+Proof.
+  unfold eqlt. destruct t as [|a|], r as [|b|]; cbn; try discriminate; try tauto.
+  destruct (Qcompare_spec b a) as [E|E|E]; try discriminate.
+  - intros F [H|[H Ho]]; [left; lra|]. subst. cbn in F. rewrite andb_true_r in F. apply negb_false_iff in F. apply negb_true_iff in F.
+    subst. right. split; [lra|reflexivity].
+  - intros _ [H|[H Ho]]; left; lra.
+Qed.
+
+(* ---- the approx functions on non-algebraic values are exact in the extended rationals *)
+Lemma int_mul_Z a b : int_mul None a b = (a * b)%Z. Proof. reflexivity. Qed.
+Lemma int_add_Z a b : int_add None a b = (a + b)%Z. Proof. reflexivity. Qed.
+Lemma int_pow_Z a n : int_pow None a n = (a ^ Z.of_N n)%Z. Proof. reflexivity. Qed.
+
+Lemma vden_dy_mul a b : dy_wf (dy_mul NoAlias dy0 a b) /\ QofD (dy_mul NoAlias dy0 a b) == QofD a * QofD b.
+Proof. rewrite dy_mul_dst by exact I. apply dy_mul_spec. Qed.
+Lemma vden_dy_add a b : dy_wf (dy_add NoAlias dy0 a b) /\ QofD (dy_add NoAlias dy0 a b) == QofD a + QofD b.
+Proof. rewrite dy_add_dst by exact I. apply dy_add_spec. Qed.
+
+Lemma zsgn_inject z : Z.sgn z = cmp_to_Z (inject_Z z ?= 0).
+Proof. change 0 with (inject_Z 0). rewrite inject_Z_cmp. destruct z; reflexivity. Qed.
+
+Lemma value_mul_approx_spec v1 v2 : vwf v1 -> vwf v2 ->
+  vwf (value_mul_approx v1 v2) /\ eeq (vden (value_mul_approx v1 v2)) (emul (vden v1) (vden v2)).
+Proof.
+  destruct v1 as [| |a|a|a|], v2 as [| |b|b|b|]; cbn [vwf]; try tauto; intros W1 W2;
+    unfold value_mul_approx; cbn [value_to_same_type value_mul_same value_sgn value_is_infinity vden emul eflip orb vwf].
+  all: try (split; [exact I|exact I]).
+  (* infinity times finite, finite times infinity: the sign analysis *)
+  all: try (rewrite zsgn_inject; destruct (Qcompare_spec (inject_Z a) 0); cbn; split; try exact I; reflexivity).
+  all: try (rewrite zsgn_inject; destruct (Qcompare_spec (inject_Z b) 0); cbn; split; try exact I; reflexivity).
+  all: try (rewrite dy_sgn_spec; destruct (Qcompare_spec (QofD a) 0); cbn; split; try exact I; reflexivity).
+  all: try (rewrite dy_sgn_spec; destruct (Qcompare_spec (QofD b) 0); cbn; split; try exact I; reflexivity).
+  all: try (rewrite (q_sgn_spec a W1); destruct (Qcompare_spec (QofR a) 0); cbn; split; try exact I; reflexivity).
+  all: try (rewrite (q_sgn_spec b W2); destruct (Qcompare_spec (QofR b) 0); cbn; split; try exact I; reflexivity).
+  - (* int int *) split; [exact I|]. unfold int_mul, ring_norm. cbn. rewrite inject_Z_mult. reflexivity.
+  - (* int dy *) destruct (vden_dy_mul (dy_from_integer a) b) as [W E]. split; [exact W|]. cbn. rewrite E.
+    destruct (dy_from_integer_spec a) as [_ E']. rewrite E'. reflexivity.
+  - (* int rat *) destruct (q_mul_spec _ _ (q_wf_integer a) W2) as [W E]. split; [exact W|]. cbn. rewrite E, QofR_integer. reflexivity.
+  - (* dy int *) destruct (vden_dy_mul a (dy_from_integer b)) as [W E]. split; [exact W|]. cbn. rewrite E.
+    destruct (dy_from_integer_spec b) as [_ E']. rewrite E'. reflexivity.
+  - (* dy dy *) destruct (vden_dy_mul a b) as [W E]. split; [exact W|]. cbn. exact E.
+  - (* dy rat *) destruct (q_from_dyadic_spec a) as [Wd Ed]. destruct (q_mul_spec _ _ Wd W2) as [W E]. split; [exact W|]. cbn. rewrite E, Ed. reflexivity.
+  - (* rat int *) destruct (q_mul_spec _ _ W1 (q_wf_integer b)) as [W E]. split; [exact W|]. cbn. rewrite E, QofR_integer. reflexivity.
+  - (* rat dy *) destruct (q_from_dyadic_spec b) as [Wd Ed]. destruct (q_mul_spec _ _ W1 Wd) as [W E]. split; [exact W|]. cbn. rewrite E, Ed. reflexivity.
+  - (* rat rat *) destruct (q_mul_spec _ _ W1 W2) as [W E]. split; [exact W|]. cbn. exact E.
+Qed.
+
+(* ---- lp_interval_mul *)
+Lemma vin_point I x : ipt I = true -> vin x I -> exists v, vden (ia I) = Fin v /\ v == x.
+Proof. unfold vin. intros ->. destruct (vden (ia I)) as [|v|]; try tauto. intros H. exists v. split; [reflexivity|assumption]. Qed.
+
+Lemma vi_mul_pt_incl P J x y : viwf P -> viwf J -> ipt P = true -> vin x P -> vin y J ->
+  vin (x * y) (vi_mul_core P J) /\ viwf (vi_mul_core P J).
+Proof.
+  intros [WP WP'] [WJ WJ'] Pt Hx Hy. destruct (vin_point P x Pt Hx) as (vx & Ex & Evx).
+  unfold vi_mul_core. rewrite Pt.
+  destruct (ipt J) eqn:PJ.
+  - destruct (vin_point J y PJ Hy) as (vy & Ey & Evy).
+    destruct (value_mul_approx_spec _ _ WP WJ) as [W E]. rewrite Ex, Ey in E. cbn in E.
+    split; [|split; [exact W|cbn; auto]]. unfold vin. cbn [ipt ia].
+    destruct (vden (value_mul_approx (ia P) (ia J))) as [|m|]; cbn in E; try tauto. rewrite E, Evx, Evy. reflexivity.
+  - unfold vin in Hy. rewrite PJ in Hy. destruct Hy as [L U].
+    rewrite (value_sgn_spec _ WP), Ex. cbn [esgn].
+    destruct (value_mul_approx_spec _ _ WP WJ) as [Wa Ea]. destruct (value_mul_approx_spec _ _ WP WJ') as [Wb Eb].
+    rewrite Ex in Ea, Eb.
+    assert (Hxy : vx * y == x * y) by (rewrite Evx; reflexivity).
+    destruct (Qcompare_spec vx 0) as [E0|E0|E0]; cbn.
+    + split; [|split; [exact I|cbn; auto]]. unfold vin. cbn. rewrite <- Evx, E0. ring.
+    + split; [|split; [exact Wb|exact Wa]]. unfold vin. cbn [ipt ia ib ia_open ib_open]. split.
+      * eapply lowok_eeq; [apply eeq_sym; exact Eb|]. eapply lowok_compat; [exact Hxy|]. apply scale_neg_low; assumption.
+      * eapply upok_eeq; [apply eeq_sym; exact Ea|]. eapply upok_compat; [exact Hxy|]. apply scale_neg_up; assumption.
+    + split; [|split; [exact Wa|exact Wb]]. unfold vin. cbn [ipt ia ib ia_open ib_open]. split.
+      * eapply lowok_eeq; [apply eeq_sym; exact Ea|]. eapply lowok_compat; [exact Hxy|]. apply scale_pos_low; assumption.
+      * eapply upok_eeq; [apply eeq_sym; exact Eb|]. eapply upok_compat; [exact Hxy|]. apply scale_pos_up; assumption.
+Qed.
+
+Definition st_wf (st : value * bool * value * bool) : Prop := let '(ra, _, rb, _) := st in vwf ra /\ vwf rb.
+Definition st_low (st : value * bool * value * bool) (z : Q) : Prop := let '(ra, rao, _, _) := st in lowok (vden ra) rao z.
+Definition st_up (st : value * bool * value * bool) (z : Q) : Prop := let '(_, _, rb, rbo) := st in upok (vden rb) rbo z.
+
+Lemma v_corner_step_sem st tmp to : st_wf st -> vwf tmp ->
+  st_wf (v_corner_step st tmp to) /\
+  (forall z, st_low st z -> st_low (v_corner_step st tmp to) z) /\
+  (forall z, lowok (vden tmp) to z -> st_low (v_corner_step st tmp to) z) /\
+  (forall z, st_up st z -> st_up (v_corner_step st tmp to) z) /\
+  (forall z, upok (vden tmp) to z -> st_up (v_corner_step st tmp to) z).
+Proof.
+  destruct st as [[[ra rao] rb] rbo]. intros [Wa Wb] Wt. unfold v_corner_step.
+  rewrite !v_endpoint_lt_spec by assumption.
+  destruct (eqlt (vden tmp) to (vden ra) rao) eqn:E1; destruct (eqlt (vden rb) (negb rbo) (vden tmp) (negb to)) eqn:E2;
+    cbn; repeat split; auto; intros z H;
+    try (eapply eqlt_low_true; eassumption); try (eapply eqlt_low_false; eassumption);
+    try (eapply eqlt_up_true; eassumption); try (eapply eqlt_up_false; eassumption).
+Qed.
+
+Lemma emul_zero_l a e : a == 0 -> eeq (emul (Fin a) e) (Fin 0).
+Proof. intros E. destruct e as [|b|]; cbn; [destruct (Qcompare_spec a 0); try lra; cbn; reflexivity|nra|destruct (Qcompare_spec a 0); try lra; cbn; reflexivity]. Qed.
+Lemma emul_zero_r a e : a == 0 -> eeq (emul e (Fin a)) (Fin 0).
+Proof. intros E. destruct e as [|b|]; cbn; [destruct (Qcompare_spec a 0); try lra; cbn; reflexivity|nra|destruct (Qcompare_spec a 0); try lra; cbn; reflexivity]. Qed.
+
+Lemma low_le_zero e o : (forall z, 0 < z -> lowok e o z) -> e = NInf \/ exists r, e = Fin r /\ r <= 0.
+Proof.
+  destruct e as [|r|]; cbn; intros H; [left; reflexivity| |exfalso; apply (H 1); lra].
+  right. exists r. split; [reflexivity|]. destruct (Qlt_le_dec 0 r) as [Hr|Hr]; [|assumption].
+  exfalso. destruct (H (r * (1 # 2))) as [H1|[H1 _]]; lra.
+Qed.
+Lemma up_ge_zero e o : (forall z, z < 0 -> upok e o z) -> e = PInf \/ exists r, e = Fin r /\ 0 <= r.
+Proof.
+  destruct e as [|r|]; cbn; intros H; [exfalso; apply (H (-1)); lra| |left; reflexivity].
+  right. exists r. split; [reflexivity|]. destruct (Qlt_le_dec r 0) as [Hr|Hr]; [|assumption].
+  exfalso. destruct (H (r * (1 # 2))) as [H1|[H1 _]]; lra.
+Qed.
+
+Lemma v_closed_zero_end_spec I1 I2 : viwf I1 -> viwf I2 -> ipt I1 = false -> ipt I2 = false ->
+  (v_closed_zero_end I1 I2 = true <->
+   czero (vden (ia I1)) (vden (ib I1)) (vden (ia I2)) (vden (ib I2)) (ia_open I1) (ib_open I1) (ia_open I2) (ib_open I2)).
+Proof.
+  intros [A1 B1] [A2 B2] P1 P2. rewrite P1 in B1. rewrite P2 in B2. unfold v_closed_zero_end, czero.
+  assert (Hs : forall v o, vwf v -> ((value_sgn v =? 0)%Z && negb o = true <-> ezero_closed (vden v) o)).
+  { intros v o W. rewrite (value_sgn_spec v W). destruct (vden v) as [|a|]; cbn; [split; [discriminate|tauto]| |split; [discriminate|tauto]].
+    destruct (Qcompare_spec a 0); destruct o; cbn; split; try discriminate; try tauto; intros [? ?]; try discriminate; lra. }
+  rewrite !orb_true_iff. rewrite !Hs by assumption. tauto.
+Qed.
+
+Lemma vi_mul_gen_incl I1 I2 x y : viwf I1 -> viwf I2 -> ipt I1 = false -> ipt I2 = false ->
+  vin x I1 -> vin y I2 -> vin (x * y) (vi_mul_core I1 I2) /\ viwf (vi_mul_core I1 I2).
+Proof.
+  intros W1 W2 P1 P2. pose proof (v_closed_zero_end_spec I1 I2 W1 W2 P1 P2) as Hcz.
+  destruct W1 as [A1 B1], W2 as [A2 B2]. rewrite P1 in B1. rewrite P2 in B2.
+  unfold vin. rewrite P1, P2. intros [L1 U1] [L2 U2].
+  unfold vi_mul_core. rewrite P1.
+  set (cz := v_closed_zero_end I1 I2) in *.
+  destruct (value_mul_approx_spec _ _ A1 A2) as [Wc1 Ec1]. destruct (value_mul_approx_spec _ _ A1 B2) as [Wc2 Ec2].
+  destruct (value_mul_approx_spec _ _ B1 A2) as [Wc3 Ec3]. destruct (value_mul_approx_spec _ _ B1 B2) as [Wc4 Ec4].
+  set (c1 := value_mul_approx (ia I1) (ia I2)) in *. set (c2 := value_mul_approx (ia I1) (ib I2)) in *.
+  set (c3 := value_mul_approx (ib I1) (ia I2)) in *. set (c4 := value_mul_approx (ib I1) (ib I2)) in *.
+  set (a1 := vden (ia I1)) in *. set (b1 := vden (ib I1)) in *. set (a2 := vden (ia I2)) in *. set (b2 := vden (ib I2)) in *.
+  set (a1o := ia_open I1) in *. set (b1o := ib_open I1) in *. set (a2o := ia_open I2) in *. set (b2o := ib_open I2) in *.
+  set (st0 := (c1, a1o || a2o, c1, a1o || a2o)).
+  assert (W0 : st_wf st0) by (split; assumption).
+  destruct (v_corner_step_sem st0 c2 (a1o || b2o) W0 Wc2) as (W1' & L1a & L1b & U1a & U1b).
+  set (st1 := v_corner_step st0 c2 (a1o || b2o)) in *.
+  destruct (v_corner_step_sem st1 c3 (b1o || a2o) W1' Wc3) as (W2' & L2a & L2b & U2a & U2b).
+  set (st2 := v_corner_step st1 c3 (b1o || a2o)) in *.
+  destruct (v_corner_step_sem st2 c4 (b1o || b2o) W2' Wc4) as (W3' & L3a & L3b & U3a & U3b).
+  set (st3 := v_corner_step st2 c4 (b1o || b2o)) in *.
+  assert (Lc1 : forall z, lowok (vden c1) (a1o || a2o) z -> st_low st3 z) by (intros z H; apply L3a, L2a, L1a; exact H).
+  assert (Lc2 : forall z, lowok (vden c2) (a1o || b2o) z -> st_low st3 z) by (intros z H; apply L3a, L2a, L1b; exact H).
+  assert (Lc3 : forall z, lowok (vden c3) (b1o || a2o) z -> st_low st3 z) by (intros z H; apply L3a, L2b; exact H).
+  assert (Lc4 : forall z, lowok (vden c4) (b1o || b2o) z -> st_low st3 z) by (intros z H; apply L3b; exact H).
+  assert (Uc1 : forall z, upok (vden c1) (a1o || a2o) z -> st_up st3 z) by (intros z H; apply U3a, U2a, U1a; exact H).
+  assert (Uc2 : forall z, upok (vden c2) (a1o || b2o) z -> st_up st3 z) by (intros z H; apply U3a, U2a, U1b; exact H).
+  assert (Uc3 : forall z, upok (vden c3) (b1o || a2o) z -> st_up st3 z) by (intros z H; apply U3a, U2b; exact H).
+  assert (Uc4 : forall z, upok (vden c4) (b1o || b2o) z -> st_up st3 z) by (intros z H; apply U3b; exact H).
+  (* when an operand has a closed zero end, some corner product is 0 *)
+  assert (Hzero : cz = true -> (forall z, 0 < z -> st_low st3 z) /\ (forall z, z < 0 -> st_up st3 z)).
+  { intros Hc. apply Hcz in Hc. unfold czero, ezero_closed in Hc.
+    assert (Z0l : forall o z, 0 < z -> lowok (Fin 0) o z) by (intros; cbn; left; assumption).
+    assert (Z0u : forall o z, z < 0 -> upok (Fin 0) o z) by (intros; cbn; left; assumption).
+    destruct Hc as [Hc|[Hc|[Hc|Hc]]].
+    - destruct a1 as [|v|]; try tauto. destruct Hc as [Hv _]. pose proof (eeq_trans _ _ _ Ec1 (emul_zero_l v a2 Hv)) as E.
+      split; intros z Hz; [apply Lc1; eapply lowok_eeq; [apply eeq_sym; exact E|apply Z0l; assumption]|apply Uc1; eapply upok_eeq; [apply eeq_sym; exact E|apply Z0u; assumption]].
+    - destruct b1 as [|v|]; try tauto. destruct Hc as [Hv _]. pose proof (eeq_trans _ _ _ Ec3 (emul_zero_l v a2 Hv)) as E.
+      split; intros z Hz; [apply Lc3; eapply lowok_eeq; [apply eeq_sym; exact E|apply Z0l; assumption]|apply Uc3; eapply upok_eeq; [apply eeq_sym; exact E|apply Z0u; assumption]].
+    - destruct a2 as [|v|]; try tauto. destruct Hc as [Hv _]. pose proof (eeq_trans _ _ _ Ec1 (emul_zero_r v a1 Hv)) as E.
+      split; intros z Hz; [apply Lc1; eapply lowok_eeq; [apply eeq_sym; exact E|apply Z0l; assumption]|apply Uc1; eapply upok_eeq; [apply eeq_sym; exact E|apply Z0u; assumption]].
+    - destruct b2 as [|v|]; try tauto. destruct Hc as [Hv _]. pose proof (eeq_trans _ _ _ Ec2 (emul_zero_r v a1 Hv)) as E.
+      split; intros z Hz; [apply Lc2; eapply lowok_eeq; [apply eeq_sym; exact E|apply Z0l; assumption]|apply Uc2; eapply upok_eeq; [apply eeq_sym; exact E|apply Z0u; assumption]]. }
+  clearbody st3. destruct st3 as [[[ra rao] rb] rbo]. destruct W3' as [Wra Wrb]. cbn [st_low st_up] in *.
+  split; [|split; [exact Wra|exact Wrb]].
+  cbn [ipt ia ib ia_open ib_open]. split.
+  - destruct (corner_low a1 b1 a2 b2 a1o b1o a2o b2o x y L1 U1 L2 U2) as [H|[H|[H|[H|[Hz Hc]]]]].
+    + apply (lowok_eeq _ _ _ _ (eeq_sym _ _ Ec1)) in H. apply Lc1 in H. destruct (_ && _); [eapply lowok_close|]; exact H.
+    + apply (lowok_eeq _ _ _ _ (eeq_sym _ _ Ec2)) in H. apply Lc2 in H. destruct (_ && _); [eapply lowok_close|]; exact H.
+    + apply (lowok_eeq _ _ _ _ (eeq_sym _ _ Ec3)) in H. apply Lc3 in H. destruct (_ && _); [eapply lowok_close|]; exact H.
+    + apply (lowok_eeq _ _ _ _ (eeq_sym _ _ Ec4)) in H. apply Lc4 in H. destruct (_ && _); [eapply lowok_close|]; exact H.
+    + apply Hcz in Hc. destruct (Hzero Hc) as [Hl _]. rewrite Hc, andb_true_r.
+      eapply lowok_compat; [symmetry; exact Hz|].
+      destruct (low_le_zero _ _ Hl) as [E|(r & E & Hr)]; rewrite E; [exact I|].
+      rewrite (value_sgn_spec _ Wra), E. cbn. destruct (Qcompare_spec r 0); cbn; [right; split; [assumption|reflexivity]|left; assumption|lra].
+  - destruct (corner_up a1 b1 a2 b2 a1o b1o a2o b2o x y L1 U1 L2 U2) as [H|[H|[H|[H|[Hz Hc]]]]].
+    + apply (upok_eeq _ _ _ _ (eeq_sym _ _ Ec1)) in H. apply Uc1 in H. destruct (_ && _); [eapply upok_close|]; exact H.
+    + apply (upok_eeq _ _ _ _ (eeq_sym _ _ Ec2)) in H. apply Uc2 in H. destruct (_ && _); [eapply upok_close|]; exact H.
+    + apply (upok_eeq _ _ _ _ (eeq_sym _ _ Ec3)) in H. apply Uc3 in H. destruct (_ && _); [eapply upok_close|]; exact H.
+    + apply (upok_eeq _ _ _ _ (eeq_sym _ _ Ec4)) in H. apply Uc4 in H. destruct (_ && _); [eapply upok_close|]; exact H.
+    + apply Hcz in Hc. destruct (Hzero Hc) as [_ Hu]. rewrite Hc, andb_true_r.
+      eapply upok_compat; [symmetry; exact Hz|].
+      destruct (up_ge_zero _ _ Hu) as [E|(r & E & Hr)]; rewrite E; [exact I|].
+      rewrite (value_sgn_spec _ Wrb), E. cbn. destruct (Qcompare_spec r 0); cbn; [right; split; [symmetry; assumption|reflexivity]|lra|left; assumption].
+Qed.
+
+Theorem vi_mul_correct I1 I2 x y : viwf I1 -> viwf I2 -> vin x I1 -> vin y I2 ->
+  vin (x * y) (vi_mul I1 I2) /\ viwf (vi_mul I1 I2).
+Proof.
+  intros W1 W2 H1 H2. unfold vi_mul.
+  destruct (ipt I1) eqn:P1; [apply vi_mul_pt_incl; assumption|].
+  destruct (ipt I2) eqn:P2.
+  - destruct (vi_mul_pt_incl I2 I1 y x W2 W1 P2 H2 H1) as [H W]. split; [|exact W].
+    unfold vin in *. destruct (ipt (vi_mul_core I2 I1)).
+    + destruct (vden (ia (vi_mul_core I2 I1))); try tauto. rewrite H. ring.
+    + destruct H as [L U]. split; [eapply lowok_compat; [|exact L]|eapply upok_compat; [|exact U]]; ring.
+  - apply vi_mul_gen_incl; assumption.
+Qed.
+
+(* ---- lp_interval_add *)
+Definition eadd (e1 e2 : eQ) : eQ :=
+  match e1, e2 with
+  | Fin a, Fin b => Fin (a + b)
+  | NInf, PInf | PInf, NInf => Fin 0
+  | NInf, _ | _, NInf => NInf
+  | _, _ => PInf
+  end.
+Definition eopposite (e1 e2 : eQ) : Prop :=
+  match e1, e2 with NInf, PInf | PInf, NInf => True | _, _ => False end.
+
+Lemma value_add_approx_spec v1 v2 : vwf v1 -> vwf v2 -> ~ eopposite (vden v1) (vden v2) ->
+  snd (value_add_approx v1 v2) = true /\ vwf (fst (value_add_approx v1 v2)) /\
+  eeq (vden (fst (value_add_approx v1 v2))) (eadd (vden v1) (vden v2)).
+Proof.
+  destruct v1 as [| |a|a|a|], v2 as [| |b|b|b|]; cbn [vwf]; try tauto; intros W1 W2 Hop;
+    unfold value_add_approx; cbn [value_to_same_type value_add_same vden eadd fst snd vwf eopposite] in *; try tauto.
+  all: try (repeat split; exact I).
+  - split; [reflexivity|]. split; [exact I|]. unfold int_add, ring_norm. cbn. rewrite inject_Z_plus. reflexivity.
+  - destruct (vden_dy_add (dy_from_integer a) b) as [W E]. split; [reflexivity|]. split; [exact W|]. cbn. rewrite E.
+    destruct (dy_from_integer_spec a) as [_ E']. rewrite E'. reflexivity.
+  - destruct (q_add_spec _ _ (q_wf_integer a) W2) as [W E]. split; [reflexivity|]. split; [exact W|]. cbn. rewrite E, QofR_integer. reflexivity.
+  - destruct (vden_dy_add a (dy_from_integer b)) as [W E]. split; [reflexivity|]. split; [exact W|]. cbn. rewrite E.
+    destruct (dy_from_integer_spec b) as [_ E']. rewrite E'. reflexivity.
+  - destruct (vden_dy_add a b) as [W E]. split; [reflexivity|]. split; [exact W|]. cbn. exact E.
+  - destruct (q_from_dyadic_spec a) as [Wd Ed]. destruct (q_add_spec _ _ Wd W2) as [W E]. split; [reflexivity|]. split; [exact W|]. cbn. rewrite E, Ed. reflexivity.
+  - destruct (q_add_spec _ _ W1 (q_wf_integer b)) as [W E]. split; [reflexivity|]. split; [exact W|]. cbn. rewrite E, QofR_integer. reflexivity.
+  - destruct (q_from_dyadic_spec b) as [Wd Ed]. destruct (q_add_spec _ _ W1 Wd) as [W E]. split; [reflexivity|]. split; [exact W|]. cbn. rewrite E, Ed. reflexivity.
+  - destruct (q_add_spec _ _ W1 W2) as [W E]. split; [reflexivity|]. split; [exact W|]. cbn. exact E.
+Qed.
+
+Lemma eadd_low e1 o1 x e2 o2 y : lowok e1 o1 x -> lowok e2 o2 y -> lowok (eadd e1 e2) (o1 || o2) (x + y) /\ ~ eopposite e1 e2.
+Proof.
+  destruct e1 as [|a|], e2 as [|b|]; cbn; try tauto. intros [H|[H Ho]] [G|[G Go]]; (split; [|tauto]);
+    try (left; lra). right. subst. split; [lra|reflexivity].
+Qed.
+Lemma eadd_up e1 o1 x e2 o2 y : upok e1 o1 x -> upok e2 o2 y -> upok (eadd e1 e2) (o1 || o2) (x + y) /\ ~ eopposite e1 e2.
+Proof.
+  destruct e1 as [|a|], e2 as [|b|]; cbn; try tauto. intros [H|[H Ho]] [G|[G Go]]; (split; [|tauto]);
+    try (left; lra). right. subst. split; [lra|reflexivity].
+Qed.
+
+(* the lower and upper end point an operand contributes (a point contributes its value, closed) *)
+Lemma vin_low I x : viwf I -> vin x I -> lowok (vden (ia I)) (ia_open I) x.
+Proof.
+  intros [_ W]. unfold vin. destruct (ipt I); [|tauto]. destruct W as [-> _].
+  destruct (vden (ia I)); cbn; tauto.
+Qed.
+Lemma vin_up I x : viwf I -> vin x I -> upok (vden (if ipt I then ia I else ib I)) (ib_open I) x.
+Proof.
+  intros [_ W]. unfold vin. destruct (ipt I); [|tauto]. destruct W as [_ ->].
+  destruct (vden (ia I)); cbn; try tauto. intros H. right. split; [symmetry; assumption|reflexivity].
+Qed.
+Lemma viwf_hi I : viwf I -> vwf (if ipt I then ia I else ib I).
+Proof. intros [W1 W2]. destruct (ipt I); assumption. Qed.
+
+Theorem vi_add_correct I1 I2 x y : viwf I1 -> viwf I2 -> vin x I1 -> vin y I2 ->
+  vin (x + y) (vi_add I1 I2) /\ viwf (vi_add I1 I2).
+Proof.
+  intros W1 W2 H1 H2. unfold vi_add.
+  pose proof (vin_low I1 x W1 H1) as L1. pose proof (vin_low I2 y W2 H2) as L2.
+  pose proof (vin_up I1 x W1 H1) as U1. pose proof (vin_up I2 y W2 H2) as U2.
+  pose proof (viwf_hi I1 W1) as Wh1. pose proof (viwf_hi I2 W2) as Wh2.
+  destruct (eadd_low _ _ _ _ _ _ L1 L2) as [La Lopp]. destruct (eadd_up _ _ _ _ _ _ U1 U2) as [Ua Uopp].
+  destruct W1 as [A1 B1], W2 as [A2 B2].
+  destruct (value_add_approx_spec _ _ A1 A2 Lopp) as (Pa & Wa & Ea).
+  destruct (value_add_approx_spec _ _ Wh1 Wh2 Uopp) as (Pb & Wb & Eb).
+  destruct (ipt I1) eqn:P1, (ipt I2) eqn:P2; cbn [andb].
+  - (* point + point *)
+    destruct (value_add_approx (ia I1) (ia I2)) as [r p] eqn:Er. cbn [fst snd] in *. subst p.
+    split; [|split; [exact Wa|cbn; auto]]. unfold vin. cbn [ipt ia].
+    destruct (vin_point I1 x P1 H1) as (vx & Ex & Evx). destruct (vin_point I2 y P2 H2) as (vy & Ey & Evy).
+    rewrite Ex, Ey in Ea. cbn in Ea. destruct (vden r); cbn in Ea; try tauto. rewrite Ea, Evx, Evy. reflexivity.
+  - destruct (value_add_approx (ia I1) (ia I2)) as [ra pa] eqn:Era. destruct (value_add_approx (ia I1) (ib I2)) as [rb pb] eqn:Erb.
+    cbn [fst snd] in *. subst pa pb. split; [|split; [exact Wa|exact Wb]]. unfold vin. cbn [ipt ia ib ia_open ib_open negb].
+    rewrite !orb_false_r. split; [eapply lowok_eeq; [apply eeq_sym; exact Ea|exact La]|eapply upok_eeq; [apply eeq_sym; exact Eb|exact Ua]].
+  - destruct (value_add_approx (ia I1) (ia I2)) as [ra pa] eqn:Era. destruct (value_add_approx (ib I1) (ia I2)) as [rb pb] eqn:Erb.
+    cbn [fst snd] in *. subst pa pb. split; [|split; [exact Wa|exact Wb]]. unfold vin. cbn [ipt ia ib ia_open ib_open negb].
+    rewrite !orb_false_r. split; [eapply lowok_eeq; [apply eeq_sym; exact Ea|exact La]|eapply upok_eeq; [apply eeq_sym; exact Eb|exact Ua]].
+  - destruct (value_add_approx (ia I1) (ia I2)) as [ra pa] eqn:Era. destruct (value_add_approx (ib I1) (ib I2)) as [rb pb] eqn:Erb.
+    cbn [fst snd] in *. subst pa pb. split; [|split; [exact Wa|exact Wb]]. unfold vin. cbn [ipt ia ib ia_open ib_open negb].
+    rewrite !orb_false_r. split; [eapply lowok_eeq; [apply eeq_sym; exact Ea|exact La]|eapply upok_eeq; [apply eeq_sym; exact Eb|exact Ua]].
+Qed.
+
+(* ---- lp_interval_pow *)
+Definition epow (e : eQ) (n : N) : eQ :=
+  match e with Fin a => Fin (a ^ Z.of_N n) | PInf => PInf | NInf => if N.odd n then NInf else PInf end.
+
+Lemma value_pow_approx_spec v n : vwf v ->
+  vwf (value_pow_approx v n) /\ eeq (vden (value_pow_approx v n)) (epow (vden v) n).
+Proof.
+  destruct v as [| |a|a|a|]; cbn [vwf]; try tauto; intros W; cbn [value_pow_approx value_sgn vden epow].
+  - destruct (N.odd n); cbn; split; exact I.
+  - split; [exact I|]. unfold int_pow. cbn. apply Zpower_Qpower. lia.
+  - rewrite dy_pow_dst by exact I. destruct (dy_pow_spec a n W) as [W' E]. split; [exact W'|exact E].
+  - destruct (q_pow_spec a n W) as [W' E]. split; [exact W'|exact E].
+  - destruct (N.odd n); cbn; split; exact I.
+Qed.
+
+Lemma epow_low_odd e o x n : N.odd n = true -> lowok e o x -> lowok (epow e n) o (x ^ Z.of_N n).
+Proof.
+  intros Ho. destruct e as [|a|]; cbn; [rewrite Ho; auto| |auto].
+  intros [H|[H Hf]]; [left; apply Qpow_odd_mono_strict; assumption|right; split; [rewrite H; reflexivity|assumption]].
+Qed.
+Lemma epow_up_odd e o x n : N.odd n = true -> upok e o x -> upok (epow e n) o (x ^ Z.of_N n).
+Proof.
+  intros Ho. destruct e as [|a|]; cbn; [rewrite Ho; auto| |auto].
+  intros [H|[H Hf]]; [left; apply Qpow_odd_mono_strict; assumption|right; split; [rewrite H; reflexivity|assumption]].
+Qed.
+Lemma epow_up_even_pos e o x n : N.odd n = false -> (n <> 0)%N -> 0 <= x -> upok e o x -> upok (epow e n) o (x ^ Z.of_N n).
+Proof.
+  intros Ho Hn Hx. destruct e as [|a|]; cbn; [tauto| |auto].
+  intros [H|[H Hf]]; [left; apply Qpow_mono_strict; assumption|right; split; [rewrite H; reflexivity|assumption]].
+Qed.
+Lemma epow_up_even_neg e o x n : N.odd n = false -> (n <> 0)%N -> x <= 0 -> lowok e o x -> upok (epow e n) o (x ^ Z.of_N n).
+Proof.
+  intros Ho Hn Hx. destruct e as [|a|]; cbn; [rewrite Ho; exact (fun _ => I)| |tauto].
+  intros [H|[H Hf]]; [left|right; split; [rewrite H; reflexivity|assumption]].
+  rewrite <- (Qpow_even_abs n x Ho), <- (Qpow_even_abs n a Ho). apply Qpow_mono_strict; [lra|lra|assumption].
+Qed.
+Lemma epow_low_even_pos a o x n : (n <> 0)%N -> 0 <= a -> lowok (Fin a) o x -> lowok (Fin (a ^ Z.of_N n)) o (x ^ Z.of_N n).
+Proof.
+  intros Hn Ha. cbn. intros [H|[H Hf]]; [left; apply Qpow_mono_strict; assumption|right; split; [rewrite H; reflexivity|assumption]].
+Qed.
+Lemma epow_low_even_neg b o x n : N.odd n = false -> (n <> 0)%N -> b <= 0 -> upok (Fin b) o x -> lowok (Fin (b ^ Z.of_N n)) o (x ^ Z.of_N n).
+Proof.
+  intros Ho Hn Hb. cbn. intros [H|[H Hf]]; [left|right; split; [rewrite H; reflexivity|assumption]].
+  rewrite <- (Qpow_even_abs n x Ho), <- (Qpow_even_abs n b Ho). apply Qpow_mono_strict; [lra|lra|assumption].
+Qed.
+
+Lemma vi_sgn_ends I x : viwf I -> ipt I = false -> vin x I ->
+  ((0 < vi_sgn I)%Z -> exists a, vden (ia I) = Fin a /\ 0 <= a) /\
+  ((vi_sgn I < 0)%Z -> exists b, vden (ib I) = Fin b /\ b <= 0).
+Proof.
+  intros [Wa Wb] Pt. rewrite Pt in Wb. unfold vi_sgn, vin. rewrite Pt, (value_sgn_spec _ Wa), (value_sgn_spec _ Wb).
+  intros [L U].
+  destruct (vden (ia I)) as [|a|], (vden (ib I)) as [|b|]; cbn in *; try tauto;
+    try (destruct (Qcompare_spec a 0)); try (destruct (Qcompare_spec b 0)); cbn;
+    destruct (ia_open I), (ib_open I); cbn; split; intros; try lia;
+    try (eexists; split; [reflexivity|lra]).
+Qed.
+
+Theorem vi_pow_correct I n x : viwf I -> vin x I -> vin (x ^ Z.of_N n) (vi_pow I n) /\ viwf (vi_pow I n).
+Proof.
+  intros W Hx. pose proof (vi_sgn_sound I x W Hx) as (Sp & Sn & _).
+  unfold vi_pow. destruct (N.eqb_spec n 0) as [->|Hn].
+  { split; [|split; [exact Logic.I|cbn; auto]]. unfold vin. cbn. reflexivity. }
+  destruct (ipt I) eqn:Pt.
+  { destruct W as [Wa _]. destruct (value_pow_approx_spec _ n Wa) as [W' E].
+    destruct (vin_point I x Pt Hx) as (vx & Ex & Evx). rewrite Ex in E. cbn in E.
+    split; [|split; [exact W'|cbn; auto]]. unfold vin. cbn [ipt ia].
+    destruct (vden (value_pow_approx (ia I) n)); cbn in E; try tauto. rewrite E, Evx. reflexivity. }
+  pose proof (vi_sgn_ends I x W Pt Hx) as [Ep En].
+  destruct W as [Wa Wb]. rewrite Pt in Wb.
+  destruct (value_pow_approx_spec _ n Wa) as [Wpa Epa]. destruct (value_pow_approx_spec _ n Wb) as [Wpb Epb].
+  unfold vin in Hx. rewrite Pt in Hx. destruct Hx as [L U].
+  set (pa := value_pow_approx (ia I) n) in *. set (pb := value_pow_approx (ib I) n) in *.
+  destruct (N.odd n) eqn:Odd.
+  { split; [|split; [exact Wpa|exact Wpb]]. unfold vin. cbn [ipt ia ib ia_open ib_open]. split.
+    - eapply lowok_eeq; [apply eeq_sym; exact Epa|]. apply epow_low_odd; assumption.
+    - eapply upok_eeq; [apply eeq_sym; exact Epb|]. apply epow_up_odd; assumption. }
+  destruct (Z.eqb_spec (vi_sgn I) 0) as [S0|S0].
+  - (* [0, max] *)
+    assert (Up2 : upok (vden pb) (ib_open I) (x ^ Z.of_N n) \/ upok (vden pa) (ia_open I) (x ^ Z.of_N n)).
+    { destruct (Qlt_le_dec x 0) as [Hx0|Hx0].
+      - right. eapply upok_eeq; [apply eeq_sym; exact Epa|]. apply epow_up_even_neg; try assumption. lra.
+      - left. eapply upok_eeq; [apply eeq_sym; exact Epb|]. apply epow_up_even_pos; assumption. }
+    pose proof (Qpow_even_nonneg n x Odd) as Nx.
+    assert (Lo0 : lowok (vden (VInt 0)) false (x ^ Z.of_N n)).
+    { change (vden (VInt 0)) with (Fin 0). unfold lowok.
+      destruct (Qlt_le_dec 0 (x ^ Z.of_N n)); [left; assumption|right; split; [lra|reflexivity]]. }
+    destruct (v_endpoint_lt pb (negb (ib_open I)) pa (negb (ia_open I))) eqn:El;
+      rewrite v_endpoint_lt_spec in El by assumption.
+    + split; [|split; [exact Logic.I|exact Wpa]]. unfold vin. cbn [ipt ia ib ia_open ib_open]. split; [exact Lo0|].
+      destruct Up2 as [H|H]; [eapply eqlt_up_true; eassumption|exact H].
+    + split; [|split; [exact Logic.I|exact Wpb]]. unfold vin. cbn [ipt ia ib ia_open ib_open]. split; [exact Lo0|].
+      destruct Up2 as [H|H]; [exact H|eapply eqlt_up_false; eassumption].
+  - destruct (Z.ltb_spec 0 (vi_sgn I)) as [S1|S1].
+    + destruct (Ep S1) as (a & Ea & Ha). specialize (Sp S1).
+      split; [|split; [exact Wpa|exact Wpb]]. unfold vin. cbn [ipt ia ib ia_open ib_open]. split.
+      * eapply lowok_eeq; [apply eeq_sym; exact Epa|]. rewrite Ea in L |- *. cbn [epow]. apply epow_low_even_pos; assumption.
+      * eapply upok_eeq; [apply eeq_sym; exact Epb|]. apply epow_up_even_pos; try assumption. lra.
+    + assert (S2 : (vi_sgn I < 0)%Z) by lia. destruct (En S2) as (b & Eb & Hb). specialize (Sn S2).
+      split; [|split; [exact Wpb|exact Wpa]]. unfold vin. cbn [ipt ia ib ia_open ib_open]. split.
+      * eapply lowok_eeq; [apply eeq_sym; exact Epb|]. rewrite Eb in U |- *. cbn [epow]. apply epow_low_even_neg; assumption.
+      * eapply upok_eeq; [apply eeq_sym; exact Epa|]. apply epow_up_even_neg; try assumption. lra.
+Qed.
+
+Lemma vin_compat z z' I : z == z' -> vin z I -> vin z' I.
+Proof.
+  intros E. unfold vin. destruct (ipt I).
+  - destruct (vden (ia I)); try tauto. rewrite E. auto.
+  - intros [L U]. split; [eapply lowok_compat|eapply upok_compat]; eassumption.
+Qed.
+
+(* ---- coefficient_interval_value / lp_polynomial_interval_value *)
+Section CoefInd.
+Variable P : coef -> Prop.
+Hypothesis Hn : forall z, P (CNum z).
+Hypothesis Hr : forall x cs, Forall P cs -> P (CRec x cs).
+Fixpoint coef_ind' (c : coef) : P c :=
+  match c with
+  | CNum z => Hn z
+  | CRec x cs => Hr x cs ((fix go (l : list coef) : Forall P l :=
+                             match l with [] => Forall_nil _ | c :: r => Forall_cons _ (coef_ind' c) (go r) end) cs)
+  end.
+End CoefInd.
+
+(* the value of the polynomial at a rational point *)
+Fixpoint ceval (rho : nat -> Q) (c : coef) : Q :=
+  match c with
+  | CNum z => inject_Z z
+  | CRec x cs =>
+    (fix go (cs : list coef) (i : N) : Q :=
+       match cs with [] => 0 | ci :: rest => ceval rho ci * rho x ^ Z.of_N i + go rest (N.succ i) end) cs 0%N
+  end.
+
+Definition ceval_list (f : coef -> Q) (xv : Q) :=
+  fix go (cs : list coef) (i : N) : Q :=
+    match cs with [] => 0 | ci :: rest => f ci * xv ^ Z.of_N i + go rest (N.succ i) end.
+Definition civ_loop (f : coef -> vitv) (x_value : vitv) :=
+  fix loop (cs : list coef) (i : N) (result : vitv) : vitv :=
+    match cs with
+    | [] => result
+    | ci :: rest =>
+      let result' :=
+        if coef_is_zero ci then result
+        else vi_add result (vi_mul (vi_pow x_value i) (f ci)) in
+      loop rest (N.succ i) result'
+    end.
+
+Lemma ceval_rec rho x cs : ceval rho (CRec x cs) = ceval_list (ceval rho) (rho x) cs 0%N.
+Proof. reflexivity. Qed.
+Lemma civ_rec m x cs : coef_interval_value m (CRec x cs) =
+  civ_loop (coef_interval_value m) (m x) cs 0%N (mkI (VInt 0) VNone false false true).
+Proof. reflexivity. Qed.
+
+Theorem coef_interval_value_correct m rho c :
+  (forall x, viwf (m x)) -> (forall x, vin (rho x) (m x)) ->
+  vin (ceval rho c) (coef_interval_value m c) /\ viwf (coef_interval_value m c).
+Proof.
+  intros Wm Hm. induction c as [z|x cs IH] using coef_ind'.
+  - cbn. split; [unfold vin; cbn; reflexivity|split; [exact I|cbn; auto]].
+  - rewrite ceval_rec, civ_rec.
+    assert (Hloop : forall cs, Forall (fun c => vin (ceval rho c) (coef_interval_value m c) /\ viwf (coef_interval_value m c)) cs ->
+              forall i r result, vin r result -> viwf result ->
+              vin (r + ceval_list (ceval rho) (rho x) cs i) (civ_loop (coef_interval_value m) (m x) cs i result) /\
+              viwf (civ_loop (coef_interval_value m) (m x) cs i result)).
+    { clear IH cs. induction cs as [|ci rest IHr]; intros HF i r result Hr Wr.
+      - cbn. split; [|exact Wr]. eapply vin_compat; [|exact Hr]. ring.
+      - inversion HF as [|? ? [Hci Wci] HF']; subst. cbn [ceval_list civ_loop].
+        set (res' := if coef_is_zero ci then result else vi_add result (vi_mul (vi_pow (m x) i) (coef_interval_value m ci))).
+        assert (Hres : vin (r + ceval rho ci * rho x ^ Z.of_N i) res' /\ viwf res').
+        { unfold res'. destruct (coef_is_zero ci) eqn:Ez.
+          - destruct ci as [z|]; [|discriminate]. cbn in Ez. apply Z.eqb_eq in Ez. subst z. cbn [ceval]. split; [|exact Wr].
+            eapply vin_compat; [|exact Hr]. change (inject_Z 0) with 0. ring.
+          - destruct (vi_pow_correct (m x) i (rho x) (Wm x) (Hm x)) as [Hp Wp].
+            destruct (vi_mul_correct _ _ _ _ Wp Wci Hp Hci) as [Hmul Wmul].
+            destruct (vi_add_correct _ _ _ _ Wr Wmul Hr Hmul) as [Ha Wa]. split; [|exact Wa].
+            eapply vin_compat; [|exact Ha]. ring. }
+        destruct Hres as [Hres Wres].
+        destruct (IHr HF' (N.succ i) _ res' Hres Wres) as [H W]. split; [|exact W].
+        eapply vin_compat; [|exact H]. ring. }
+    assert (H0 : vin 0 (mkI (VInt 0) VNone false false true)) by (unfold vin; cbn; reflexivity).
+    assert (W0 : viwf (mkI (VInt 0) VNone false false true)) by (split; [exact I|cbn; auto]).
+    destruct (Hloop cs IH 0%N 0 _ H0 W0) as [H W]. split; [|exact W].
+    eapply vin_compat; [|exact H]. ring.
+Qed.
+
+(* exactness on points at the value level: the results are points (and, by the inclusion theorems,
+   the point is the exact value) *)
+Lemma vin_point_iff I z : ipt I = true -> (vin z I <-> exists v, vden (ia I) = Fin v /\ v == z).
+Proof.
+  intros Pt. split; [apply vin_point; assumption|]. intros (v & E & Ev). unfold vin. rewrite Pt, E. assumption.
+Qed.
+
+Theorem vi_point_exact I1 I2 n x y : viwf I1 -> viwf I2 -> ipt I1 = true -> ipt I2 = true -> vin x I1 -> vin y I2 ->
+  (ipt (vi_add I1 I2) = true /\ forall z, vin z (vi_add I1 I2) <-> z == x + y) /\
+  (ipt (vi_mul I1 I2) = true /\ forall z, vin z (vi_mul I1 I2) <-> z == x * y) /\
+  (ipt (vi_pow I1 n) = true /\ forall z, vin z (vi_pow I1 n) <-> z == x ^ Z.of_N n).
+Proof.
+  intros W1 W2 P1 P2 H1 H2.
+  assert (Hex : forall J v, ipt J = true -> vin v J -> forall z, vin z J <-> z == v).
+  { intros J v PJ Hv z. destruct (vin_point J v PJ Hv) as (w & Ew & Evw). rewrite (vin_point_iff J z PJ). split.
+    - intros (w' & Ew' & Evw'). rewrite Ew in Ew'. injection Ew' as <-. rewrite <- Evw', Evw. reflexivity.
+    - intros Ez. exists w. split; [assumption|]. rewrite Ez. assumption. }
+  destruct (vi_add_correct I1 I2 x y W1 W2 H1 H2) as [Ha _].
+  destruct (vi_mul_correct I1 I2 x y W1 W2 H1 H2) as [Hm _].
+  destruct (vi_pow_correct I1 n x W1 H1) as [Hp _].
+  assert (Pa : ipt (vi_add I1 I2) = true).
+  { unfold vi_add. rewrite P1, P2. cbn [andb].
+    destruct (vin_point I1 x P1 H1) as (vx & Ex & _). destruct (vin_point I2 y P2 H2) as (vy & Ey & _).
+    destruct W1 as [A1 _], W2 as [A2 _].
+    assert (Hop : ~ eopposite (vden (ia I1)) (vden (ia I2))) by (rewrite Ex, Ey; cbn; tauto).
+    destruct (value_add_approx_spec _ _ A1 A2 Hop) as (Ps & _ & _).
+    destruct (value_add_approx (ia I1) (ia I2)) as [r p]. cbn in Ps. subst p. reflexivity. }
+  assert (Pm : ipt (vi_mul I1 I2) = true) by (unfold vi_mul, vi_mul_core; rewrite P1, P2; reflexivity).
+  assert (Pp : ipt (vi_pow I1 n) = true) by (unfold vi_pow; rewrite P1; destruct (n =? 0)%N; reflexivity).
+  split; [split; [exact Pa|exact (Hex _ _ Pa Ha)]|split; [split; [exact Pm|exact (Hex _ _ Pm Hm)]|split; [exact Pp|exact (Hex _ _ Pp Hp)]]].
 Qed.
